@@ -117,9 +117,15 @@ type ConcState struct {
 	incomplete   bool
 	readCache    map[string]Value
 	refMu        sync.Mutex
-	waitCnt      map[string]int // Cond.Wait sites passed on the current path (retry-loop bound)
-	mapAcc       map[string]map[int]bool // shared map -> accessing thread -> it writes the map
-	pcMark       pcMarkT        // path-condition mark at the start of the thread being explored
+	waitCnt      map[string]int               // Cond.Wait sites passed on the current path (retry-loop bound)
+	mapAcc       map[string]map[int]bool      // shared map -> accessing thread -> it writes the map
+	newMapKeys   map[int]map[string]newMapKey // keys inserted by threads into maps that exist at the fork
+	pcMark       pcMarkT                      // path-condition mark at the start of the thread being explored
+}
+
+type newMapKey struct {
+	K    Value
+	Zero Value
 }
 
 type heapSnap struct {
@@ -151,7 +157,7 @@ func (ex *Exec) takeSnap() *heapSnap {
 	for _, m := range ex.allMaps {
 		cp := map[string]*mapEntry{}
 		for k, e := range m.Entries {
-			cp[k] = &mapEntry{K: e.K, V: copyVal(e.V)}
+			cp[k] = &mapEntry{K: e.K, V: copyVal(e.V), Cell: e.Cell}
 		}
 		s.maps = append(s.maps, m)
 		s.mapE = append(s.mapE, cp)
@@ -173,11 +179,11 @@ func (ex *Exec) restoreSnap(s *heapSnap) {
 		o.V = copyVal(s.vals[i])
 		o.Shared = s.shared[i]
 	}
-	ex.allObjs = ex.allObjs[:len(s.objs)]
+	ex.allObjs = append(ex.allObjs[:0], s.objs...)
 	for i, m := range s.maps {
 		cp := map[string]*mapEntry{}
 		for k, e := range s.mapE[i] {
-			cp[k] = &mapEntry{K: e.K, V: copyVal(e.V)}
+			cp[k] = &mapEntry{K: e.K, V: copyVal(e.V), Cell: e.Cell}
 		}
 		m.Entries = cp
 	}
@@ -238,6 +244,21 @@ func (ex *Exec) runParallel() {
 	if ex.concreteMode {
 		panic(unsupported("concrete replay of concurrent harness"))
 	}
+	// the entries of every map that exists at the fork become shared cells {present, value}
+	if ex.h.Opts["maps"] != "local" {
+		for _, m := range ex.allMaps {
+			if m.Nil {
+				continue
+			}
+			for _, k := range m.sortedKeys() {
+				e := m.Entries[k]
+				if e.Cell == nil {
+					e.Cell = ex.newObject(&StructV{Fields: []Value{ex.ts.Bool(true), copyVal(e.V)}}, "mapcell", nil)
+					e.Cell.Key = fmt.Sprintf("mapcell%d[%s]", m.ID, sanitize(k))
+				}
+			}
+		}
+	}
 	// everything allocated so far is shared
 	for _, o := range ex.allObjs {
 		o.Shared = true
@@ -287,6 +308,9 @@ func (ex *Exec) runParallel() {
 		for t := 1; t < len(c.threads); t++ { // len grows when threads spawn goroutines
 			ex.exploreThread(t)
 			merge()
+		}
+		if ex.addAbsentCells() {
+			changed = true
 		}
 		if c.incomplete && !changed {
 			// the writer / candidate sets are stable, yet some paths still end at a read of a foreign
@@ -919,7 +943,7 @@ func (ex *Exec) concMapAccess(m *MapV, write bool) {
 		return
 	}
 	loc := fmt.Sprintf("map%d", m.ID)
-	if m.ID/1000000 != c.curThread {
+	if m.ID/1000000 != c.curThread && !ex.mapIsCelled(m) {
 		// a map that exists outside the thread: its CONTENTS are not modelled as shared state (each
 		// thread is explored on the contents at the fork); composeAndCheck refuses to decide a
 		// harness in which one thread changes such a map and another one looks at it
@@ -940,6 +964,74 @@ func (ex *Exec) concMapAccess(m *MapV, write bool) {
 	} else {
 		ex.addEvent(&Event{Kind: "mapr", Loc: loc, Plain: true})
 	}
+}
+
+// mapIsCelled: the map existed at the fork and its entries are shared cells.
+func (ex *Exec) mapIsCelled(m *MapV) bool {
+	c := ex.conc
+	if c == nil || c.snap == nil || ex.h.Opts["maps"] == "local" {
+		return false
+	}
+	for _, sm := range c.snap.maps {
+		if sm == m {
+			return true
+		}
+	}
+	return false
+}
+
+// concNewMapKey: a thread inserts a key the map did not have at the fork.  In this pass the entry is
+// local to the thread's path; the key is remembered and before the next pass of the fix point the
+// snapshot gets an ABSENT shared cell for it, so that every thread (the inserting one included)
+// then reads and writes the same cell.
+func (ex *Exec) concNewMapKey(m *MapV, ks string, k Value, elem types.Type) {
+	c := ex.conc
+	if !c.active() || c.mode != "thread" || !ex.mapIsCelled(m) {
+		return
+	}
+	if c.newMapKeys == nil {
+		c.newMapKeys = map[int]map[string]newMapKey{}
+	}
+	if c.newMapKeys[m.ID] == nil {
+		c.newMapKeys[m.ID] = map[string]newMapKey{}
+	}
+	if _, ok := c.newMapKeys[m.ID][ks]; !ok {
+		c.newMapKeys[m.ID][ks] = newMapKey{K: k, Zero: ex.zero(elem)}
+	}
+}
+
+// addAbsentCells extends the fork snapshot by absent cells for the keys threads inserted in the
+// pass that just ended; reports whether anything was added (another pass is needed).
+func (ex *Exec) addAbsentCells() bool {
+	c := ex.conc
+	added := false
+	s := c.snap
+	for i, m := range s.maps {
+		nk := c.newMapKeys[m.ID]
+		if len(nk) == 0 {
+			continue
+		}
+		keys := make([]string, 0, len(nk))
+		for k := range nk {
+			keys = append(keys, k)
+		}
+		sort.Strings(keys)
+		for _, ks := range keys {
+			if _, ok := s.mapE[i][ks]; ok {
+				continue
+			}
+			s.nextObj++
+			o := &Object{ID: s.nextObj, V: &StructV{Fields: []Value{ex.ts.Bool(false), copyVal(nk[ks].Zero)}}, Label: "mapcell", Shared: true}
+			o.Key = fmt.Sprintf("mapcell%d[%s]", m.ID, sanitize(ks))
+			s.objs = append(s.objs, o)
+			s.vals = append(s.vals, copyVal(o.V))
+			s.shared = append(s.shared, true)
+			c.snapIdx[o] = len(s.objs) - 1
+			s.mapE[i][ks] = &mapEntry{K: nk[ks].K, V: copyVal(nk[ks].Zero), Cell: o}
+			added = true
+		}
+	}
+	return added
 }
 
 // ---------------------------------------------------------------------------
